@@ -24,8 +24,8 @@ META = {
 
 def shards(tier):
     if tier == "quick":
-        return [{"label": "cubes%d" % i, "n": 400} for i in range(8)]
-    return [{"label": "cubes%d" % i, "n": 20000} for i in range(16)]
+        return [{"label": "cubes%d" % i, "n": 1500} for i in range(12)]
+    return [{"label": "cubes%d" % i, "n": 150000} for i in range(16)]
 
 
 def cases(ctx):
